@@ -52,7 +52,7 @@ var Usr = &Universe{
 var Universes = map[string]*Universe{"num": Num, "usr": Usr}
 
 // Method is one defined method. Qual is "" (primary), "before", "after" or "around". Style only matters
-// for around methods: "" calls call-next-method once, "stop" does not call it, "twice" calls it twice,
+// for around methods (an around method returns (list id <result of call-next-method> <leaving mark>)): "" calls call-next-method once, "stop" does not call it, "twice" calls it twice,
 // "nmp" reports (next-method-p) first, "noargs" calls (call-next-method) without arguments.
 type Method struct {
 	Qual  string
@@ -84,6 +84,9 @@ func Key(qual string, specs []string) string {
 type Table struct {
 	U *Universe
 	M map[string]*Method
+	// Tagged: the leaving mark of an around method returns -id (otherwise nil); it is the last element of
+	// the list an around method returns.
+	Tagged bool
 }
 
 // NewTable makes an empty table.
@@ -92,6 +95,7 @@ func NewTable(u *Universe) *Table { return &Table{U: u, M: map[string]*Method{}}
 // Clone copies the table (methods are immutable).
 func (t *Table) Clone() *Table {
 	c := NewTable(t.U)
+	c.Tagged = t.Tagged
 	for k, m := range t.M {
 		c.M[k] = m
 	}
@@ -228,6 +232,10 @@ func (t *Table) Expect(args []string) (e Expect) {
 		}
 		m := arounds[i]
 		id := strconv.Itoa(m.ID)
+		leave := "nil"
+		if t.Tagged {
+			leave = "-" + id
+		}
 		switch m.Style {
 		case "stop":
 			return []string{id}, id
@@ -236,17 +244,17 @@ func (t *Table) Expect(args []string) (e Expect) {
 			out := append([]string{id}, tr...)
 			out = append(out, tr...)
 			out = append(out, "-"+id)
-			return out, "(" + id + " " + res + " " + res + ")"
+			return out, "(" + id + " " + res + " " + res + " " + leave + ")"
 		case "nmp":
 			tr, res := walk(i + 1)
 			out := append([]string{id + "=t"}, tr...)
 			out = append(out, "-"+id)
-			return out, "(" + id + " " + res + ")"
+			return out, "(" + id + " " + res + " " + leave + ")"
 		}
 		tr, res := walk(i + 1)
 		out := append([]string{id}, tr...)
 		out = append(out, "-"+id)
-		return out, "(" + id + " " + res + ")"
+		return out, "(" + id + " " + res + " " + leave + ")"
 	}
 	e.Trace, e.Result = walk(0)
 	return
